@@ -66,6 +66,16 @@ def plain_snapshot(g, kind):
     return json.dumps(st, sort_keys=True, default=str)
 
 
+def _tampered(name, var=False):
+    from cai_causal_graph.graph_components import TimeSeriesNode
+    nd = TimeSeriesNode(name)
+    if var:
+        nd.meta['variable_name'] = 'other'
+    else:
+        nd.meta['time_lag'] = -7
+    return nd
+
+
 def malformed_calls(g, rng, kind):
     from cai_causal_graph.graph_components import Edge, Node
     names = g.get_node_names() or ['a']
@@ -92,7 +102,10 @@ def malformed_calls(g, rng, kind):
               ('add_node: time_lag given as a string', lambda: g.add_node(variable_name='zq', time_lag='1')),
               ('add_time_edge: non-integer lag', lambda: g.add_time_edge('zq', 1.5, 'y', 0)),
               ('replace_node: non-integer lag', lambda: g.replace_node(n, time_lag=1.5)),
-              ('replace_node: variable_name containing a marker', lambda: g.replace_node(n, variable_name='q lag(n=1)', time_lag=0))]
+              ('replace_node: variable_name containing a marker', lambda: g.replace_node(n, variable_name='q lag(n=1)', time_lag=0)),
+              ('add_node: node object whose lag tag was edited by hand', lambda: g.add_node(node=_tampered('tq lag(n=1)'))),
+              ('add_edge: new end point object whose lag tag was edited by hand', lambda: g.add_edge(_tampered('tq lag(n=2)'), n)),
+              ('add_edge: new end point object whose variable tag was edited by hand', lambda: g.add_edge(n, _tampered('tq', var=True)))]
     return L
 
 
